@@ -6,7 +6,7 @@ use crate::oracle::*;
 use linfa::dataset::DatasetBase;
 use linfa::traits::Transformer;
 use linfa_hierarchical::{HierarchicalCluster, Method};
-use linfa_kernel::KernelType;
+use linfa_kernel::{KernelInner, KernelType};
 use linfa_nn::CommonNearestNeighbour;
 use serde::{Deserialize, Serialize};
 use vengine::gen::idx;
@@ -36,6 +36,9 @@ pub struct HCase {
     /// 5 criterion only when the linkage is the documented default (Average), else as 1
     #[serde(default)]
     pub order: u8,
+    /// memory layout of the records the clustered kernel is built from (see `kernel::layout_name`)
+    #[serde(default)]
+    pub layout: u8,
 }
 
 fn to_kodama(l: Link) -> Method {
@@ -45,6 +48,8 @@ fn to_kodama(l: Link) -> Method {
         Link::Average => Method::Average,
         Link::Weighted => Method::Weighted,
         Link::Ward => Method::Ward,
+        Link::Centroid => Method::Centroid,
+        Link::Median => Method::Median,
     }
 }
 
@@ -118,7 +123,10 @@ fn class_labels(c: &HCase, obs: &mut Obs) {
         Link::Average => "link_average",
         Link::Weighted => "link_weighted",
         Link::Ward => "link_ward",
+        Link::Centroid => "link_centroid",
+        Link::Median => "link_median",
     });
+    obs.class(crate::kernel::layout_name(c.layout));
     obs.class_if(c.sparse_k.is_some() && c.x.len() >= 2, "sparse_kernel");
     obs.class_if(c.sparse_k.is_none() || c.x.len() < 2, "dense_kernel");
 }
@@ -142,7 +150,11 @@ pub fn check_hier(c: &HCase, obs: &mut Obs) {
         obs.skip("kdtree_build_would_not_terminate");
         return;
     }
-    let Some((kernel, _)) = obs.call("build-kernel", || build(&x, &c.method, kind, CommonNearestNeighbour::KdTree, 0, c.order)) else { return };
+    // the kd-tree documents a panic for rows that are not contiguous in memory: use the ball tree there
+    let p_cols = x.ncols();
+    let nn = if crate::kernel::rows_contiguous(c.layout, n, p_cols) { CommonNearestNeighbour::KdTree } else { CommonNearestNeighbour::BallTree };
+    let path = c.order / 6 + 3 * (c.order % 2); // 0..=5, derived: no further case field
+    let Some((kernel, _)) = obs.call("build-kernel", || build(&x, &c.method, kind, nn, path, c.order, c.layout)) else { return };
     // the similarity matrix *is* the input of the clustering: read it off the kernel object
     let sim = match densify(&kernel, n) {
         Ok((m, _)) => m,
@@ -151,6 +163,17 @@ pub fn check_hier(c: &HCase, obs: &mut Obs) {
             return;
         }
     };
+    // ... but it must be the kernel of the *logical* rows, whatever the memory layout of the records
+    if let KernelInner::Dense(_) = &kernel.inner {
+        for i in 0..n {
+            for j in 0..n {
+                let (v, t) = kernel_ref(&c.method, &c.x[i], &c.x[j], F64);
+                obs.ensure((sim[i][j] - v).abs() <= t, "hier:kernel-entry", || {
+                    format!("clustered kernel: entry ({i},{j}) = {}, kernel function of rows {i},{j} = {v} ({})", sim[i][j], crate::kernel::layout_name(c.layout))
+                });
+            }
+        }
+    }
     let d: Mat = sim.iter().map(|r| r.iter().map(|s| dissimilarity(*s)).collect()).collect();
     let mut pairwise = vec![];
     for i in 0..n {
@@ -161,9 +184,9 @@ pub fn check_hier(c: &HCase, obs: &mut Obs) {
     let any_negative = pairwise.iter().any(|v| *v < 0.0);
     obs.class_if(any_negative, "negative_dissimilarities");
     obs.class_if(pairwise.iter().any(|v| *v == dissimilarity(0.0)), "similarity_floor_reached");
-    if c.link == Link::Ward && any_negative {
-        // Ward works on squared dissimilarities: "below the threshold" has no meaning for negative ones
-        obs.skip("ward_with_negative_dissimilarity");
+    if c.link.on_squares() && any_negative {
+        // Ward / Centroid / Median work on squared dissimilarities: "below the threshold" has no meaning for negative ones
+        obs.skip("squared_linkage_with_negative_dissimilarity");
         return;
     }
     let pairwise = sorted_unique(pairwise);
@@ -257,6 +280,44 @@ pub fn check_hier(c: &HCase, obs: &mut Obs) {
             format!(
                 "single linkage, theta = {theta}: got partition {:?} ({got_k} clusters), connected components of the graph d < theta are {:?} ({want_k} clusters)",
                 got, want
+            )
+        });
+        return;
+    }
+
+    if !c.link.monotone() {
+        // Centroid / Median: kodama keeps the dendrogram in merge order and it may contain inversions.
+        // Documented rule (Criterion / max_distance docs, and the loop of the unchanged code): merging stops in
+        // front of the first step, in merge order, whose dissimilarity is not below the threshold.
+        let hs: Vec<f64> = agg.merges.iter().map(|m| m.2).collect();
+        obs.class_if(hs.windows(2).any(|w| w[1] < w[0] - MERGE_GAP * (1.0 + w[0].abs())), "reference_dendrogram_has_inversion");
+        let mut stop: Option<usize> = None;
+        for (s, (m, amb)) in agg.merges.iter().zip(&agg.ambiguous).enumerate() {
+            if s != 0 && (theta - m.2).abs() <= MERGE_GAP * (1.0 + m.2.abs()) {
+                obs.skip("not_judged_theta_within_rounding_of_a_merge_height");
+                return;
+            }
+            if m.2 >= theta {
+                stop = Some(s);
+                break;
+            }
+            if *amb {
+                obs.skip("not_judged_ambiguous_dendrogram");
+                return;
+            }
+        }
+        let in_gap = stop.map(|s| hs[s + 1..].iter().any(|h| *h < theta)).unwrap_or(false);
+        obs.class_if(in_gap, "theta_inside_inversion_gap");
+        let want = cut_below(n, &agg, theta);
+        let want_k = n_clusters(&want);
+        obs.class_if(want_k == 1, "expect_one_cluster");
+        obs.class_if(want_k == n, "expect_n_clusters");
+        obs.class_if(want_k > 1 && want_k < n, "expect_strictly_between");
+        obs.nontrivial_if((want_k > 1 && want_k < n) || in_gap);
+        obs.ensure(got == want, "threshold:merge-order-stop", || {
+            format!(
+                "{:?} linkage, theta = {theta}: got partition {:?} ({got_k} clusters); stopping in front of the first merge (in merge order) that is not below theta gives {:?} ({want_k} clusters); merge heights in merge order {:?}",
+                c.link, got, want, hs
             )
         });
         return;
